@@ -64,7 +64,8 @@ def is_jittery(d):
 
 # ------------------------------------------------------------------ random specs
 def rand_spec(seed, allow_blocking=True, allow_buffer=True, allow_advance=True, allow_phase=True, overrun=True,
-              n_min=2, n_max=5, comm_scale=0.02, p_edge=0.45, zero_bias=0.0, rates=None, max_window=4, p_fwd_skip=0.12, p_buffer=0.25):
+              n_min=2, n_max=5, comm_scale=0.02, p_edge=0.45, zero_bias=0.0, rates=None, max_window=4, p_fwd_skip=0.12, p_buffer=0.25,
+              buffer_back=True):
     """Random DAG plus skipped back-edges. Every node gets at least one input (DESIGN.md 2.4)."""
     rnd = random.Random(seed)
     rates = rates or RATES
@@ -97,7 +98,7 @@ def rand_spec(seed, allow_blocking=True, allow_buffer=True, allow_advance=True, 
                 # skip is required on back-edges and allowed (strict "arrived before the step" rule) on forward edges too
                 conns.append(dict(out=f"n{a}", inp=f"n{b}", window=rnd.randint(1, max_window), skip=back or rnd.random() < p_fwd_skip,
                                   blocking=allow_blocking and rnd.random() < 0.4,
-                                  jitter="B" if (allow_buffer and rnd.random() < p_buffer) else "L", delay=cdelay()))
+                                  jitter="B" if (allow_buffer and rnd.random() < p_buffer and (buffer_back or not back)) else "L", delay=cdelay()))
     for k in range(1, N):  # every non-first node gets at least one forward input
         b = order[k]
         if not any(c["inp"] == f"n{b}" and not c["skip"] for c in conns):
